@@ -44,6 +44,7 @@ type SSTableReader struct {
 	dataReader   recordio.ReadAtI
 	metaData     *proto.MetaData
 	miscClosers  []recordio.CloseableI
+	closed       bool
 }
 
 func (reader *SSTableReader) Contains(key []byte) (bool, error) {
@@ -117,6 +118,11 @@ func (reader *SSTableReader) getValueAtOffset(iVal IndexVal, skipHashCheck bool)
 }
 
 func (reader *SSTableReader) Scan() (SSTableIteratorI, error) {
+	// a scanner opens the data file once more and is released by Close: after Close nobody would release it anymore
+	if reader.closed {
+		return nil, fmt.Errorf("sstable '%s' is closed already", reader.opts.basePath)
+	}
+
 	if reader.v0DataReader != nil {
 		dataReader, err := rProto.NewReader(rProto.ReaderPath(filepath.Join(reader.opts.basePath, DataFileName)))
 		if err != nil {
@@ -175,6 +181,7 @@ func (reader *SSTableReader) ScanRange(keyLower []byte, keyHigher []byte) (SSTab
 }
 
 func (reader *SSTableReader) Close() (err error) {
+	reader.closed = true
 	for _, e := range reader.miscClosers {
 		err = errors.Join(err, e.Close())
 	}
